@@ -575,23 +575,38 @@ def resolve(t, mode='alpha'):
 
 
 # --------------------------------------------------------- normal forms / equality
-def norm_py(t):
+def norm_py(t, deep=False):
     """A10: the Python toolkit drops a substitution applied directly to a metavariable that declares
-    the variable fresh.  Normalise that away so both spellings compare equal."""
+    the variable fresh.  Normalise that away so both spellings compare equal (also when the metavariable sits under further
+    pending substitutions none of whose plugs re-introduces the variable)."""
     k = t[0]
     if k in ('ev', 'sv', 'sy', 'mv'):
         return t
     if k in ('im', 'ap'):
-        return (k, norm_py(t[1]), norm_py(t[2]))
+        return (k, norm_py(t[1], deep), norm_py(t[2], deep))
     if k in ('ex', 'mu'):
-        return (k, t[1], norm_py(t[2]))
-    p = norm_py(t[1]); g = norm_py(t[3])
+        return (k, t[1], norm_py(t[2], deep))
+    p = norm_py(t[1], deep); g = norm_py(t[3], deep)
     if p[0] == 'mv':
         if k == 'es' and t[2] in p[2]:
             return p
         if k == 'ss' and t[2] in p[3]:
             return p
+    elif deep and p[0] in ('es', 'ss'):
+        # the same identification one level up: a substitution for a variable that the document's judgement calls fresh in the
+        # whole pending chain below it (metavariable declares it fresh, no plug brings it back) is redundant; whether it is still
+        # spelled out depends only on the order in which two instantiations were composed
+        if k == 'es' and d_e_fresh(p, t[2]):
+            return p
+        if k == 'ss' and d_s_fresh(p, t[2]):
+            return p
     return (k, p, t[2], g)
+
+
+def norm_eq(t):
+    """norm_py plus: redundant substitutions on a whole pending chain are dropped too.  For COMPARING results of instantiations only
+    (never for building inputs: the toolkit's own judgements are conservative on the spelled-out form)."""
+    return norm_py(t, deep=True)
 
 
 def canon_constraints(t):
